@@ -76,7 +76,7 @@ int snoopy_datasource_domain (char * const resultBuf, size_t resultBufSize, __at
      * START: COPY FROM datasource/hostname
      */
     /* Get my hostname first */
-    retVal = gethostname(hostname, HOST_NAME_MAX);
+    retVal = gethostname(hostname, HOST_NAME_BUF_SIZE);
     if (0 != retVal) {
         return snprintf(resultBuf, resultBufSize, "(error @ gethostname(): %d)", errno);
     }
